@@ -98,10 +98,14 @@ def run(res, programs, tier):
     res.rule("R17.2c", "(shared with C17)")
     res.rule("R17.4", "(shared with C17)")
     res.rule("R17.3", "(shared with C17) constructor / writer sets of integer Repr and Buffer")
+    res.rule("R17.7", "(shared with C17) Repr::clone_from: the final sign fix-up reads the current sign of self (a.clone_from(&b) must equal b)")
+    res.rule("R17.8", "(shared with C17) Repr::clone_from frees or reuses the destination buffer on every path")
+    from . import c17b
     for P in programs:
         if "dashu_int" in P.units:
             c17._inventory(res, P, P.name)
             c17._r17_3(res, P, P.name)
+            c17b._r17_8c(res, P, P.name)
     from . import fdt_tables
     fdt_tables.r05_3(res, programs)
     # R05.3c: the log2-estimate shortcuts of the comparison kernels are conservative (shared polarity rule)
